@@ -539,6 +539,27 @@ def factory_closures_part(ctx):
                 ctx.violation("oracle", f"node wrapping Scaler({fct}).apply on x={x}: cached run returned {got}, the method computes {fct * x} "
                               f"(an entry written for the same method of ANOTHER object was served)", case={"factors": factors, "x": x})
                 break
+        # several functions written on ONE source line (inspect.getsource returns the whole line for each of them), used as node
+        # functions directly and captured by closures of one factory
+        fs = [lambda v: v + 1, lambda v: v * v, lambda v: v - 7]  # noqa: E731
+        wants = [x + 1, x * x, x - 7]
+
+        def make_step(fn):
+            def step(x):
+                return fn(x)
+            return FunctionNode(step, name="step", output_name="y", cache=True)
+        for label, mk in (("lambda used as the node function", lambda f: FunctionNode(f, name="lam", output_name="y", cache=True).with_inputs(v="x")),
+                          ("closure capturing the lambda", make_step)):
+            runner = SyncRunner(cache=InMemoryCache())
+            order = list(range(3))
+            rng.shuffle(order)
+            for j in order:
+                got = runner.run(Graph([mk(fs[j])]), {"x": x}).values
+                n += 1
+                if got != {"y": wants[j]}:
+                    ctx.violation("oracle", f"{label}, one of three lambdas sharing a source line, x={x}: cached run returned {got}, the function computes "
+                                  f"{wants[j]} (an entry of another function on that line was served)", case={"x": x, "which": j, "shape": label})
+                    break
         # closures capturing PLAIN OBJECTS (default repr = an address) that are created and dropped one after the other: a later
         # object may sit at the address of an earlier one, which says nothing about what it is
         class Model:
